@@ -73,63 +73,99 @@ def entry_frame(ct: Container, cd: Codecs, rep, rule="entry-frame"):
 
 
 def comment_carry(ct: Container, rep, rule="comment-carry"):
+    """Path summaries of replace_block: the comment handed to add_block is the caller's when one was given (`comment is not
+    None`) and otherwise the comment of the entry being replaced (the first entry of the new block's type), and that entry is
+    looked up before the removal."""
+    from ..facts import flat_facts, path_returns, split_ifexp
+    from .c11 import first_of_type
     mod = M.MOD(ct)
     ff = ct.facts("replace_block")
     fq = "Tdf.replace_block"
     cfg = ff.cfg
+    bp = ff.f.params[0]
+    cparam = "comment"
     calls = ff.ev("self_call")
     rm = next((e for e in calls if e.meth == "remove_block"), None)
     ad = next((e for e in calls if e.meth == "add_block"), None)
     if ad is None:
         raise AnalysisError(f"{fq}: no call to add_block")
-    # comment argument of add_block
-    carg = ad.call.args[1] if len(ad.call.args) > 1 else next((k.value for k in ad.call.keywords if k.arg == "comment"), None)
-    if carg is None:
-        rep.fail(rule, mod, fq, ad.stmt, "add_block is called without the comment: the previous comment is lost (default text is written)")
-        return
-    olds = [n for n, v in ff.entry_names.items() if v[0] == "elem"]
-    # definition(s) of the comment value
-    exprs = []
-    if isinstance(carg, ast.Name):
-        for v, st in ff.defs.get(carg.id, []):
-            exprs.append((v, st))
-        if not exprs:
-            exprs = [(carg, ad.stmt)]
-    else:
-        exprs = [(carg, ad.stmt)]
-    good = False
-    for v, st in exprs:
-        if isinstance(v, ast.IfExp):
-            t = norm(v.test).replace(" ", "")
-            pname = "comment"
-            if t in (f"{pname}isnotNone",) and norm(v.body) == pname and any(norm(v.orelse) == f"{o}.comment" for o in olds):
-                good = True
-                cap = next(o for o in olds if norm(v.orelse) == f"{o}.comment")
-                # captured before removal
-                capdef = ff.defs.get(cap, [])
-                if rm is not None and capdef:
-                    cn = cfg.node_of(capdef[0][1])
-                    if cn is not None and cfg.dominates(cn, rm.node):
-                        rep.ok(rule, f"{fq}: old entry captured before the removal", nontrivial=True)
-                    else:
-                        rep.fail(rule, mod, fq, capdef[0][1], "the old entry is looked up after the block was removed")
-            elif t in (f"{pname}isNone",) and norm(v.orelse) == pname and any(norm(v.body) == f"{o}.comment" for o in olds):
-                good = True
-            else:
-                rep.fail(rule, mod, fq, st, f"comment is chosen by `{norm(v.test)}`: an explicit empty comment or the old comment is not carried as specified (expected `comment if comment is not None else old.comment`)")
-                return
-        elif isinstance(v, ast.BoolOp):
-            rep.fail(rule, mod, fq, st, "comment chosen by truthiness (`or`): an explicit empty comment would be replaced by the old one")
-            return
+
+    def is_old_entry(e):
+        if first_of_type(ct, e, f"{bp}.type") is not None:
+            return True
+        # [x for x in entries if x.type == T][0]
+        if isinstance(e, ast.Subscript) and isinstance(e.slice, ast.Constant) and e.slice.value == 0 and isinstance(e.value, ast.ListComp) and len(e.value.generators) == 1:
+            g = e.value.generators[0]
+            v = norm(g.target)
+            if ct.is_entries(g.iter) and norm(e.value.elt) == v and len(g.ifs) == 1 and isinstance(g.ifs[0], ast.Compare) and len(g.ifs[0].ops) == 1 \
+                    and isinstance(g.ifs[0].ops[0], (ast.Eq, ast.Is)) and {norm(g.ifs[0].left), norm(g.ifs[0].comparators[0])} == {f"{v}.type", f"{bp}.type"}:
+                return True
+        return False
+
+    def none_fact(facts_):
+        res = None
+        for t, pol in facts_:
+            if isinstance(t, ast.Compare) and len(t.ops) == 1 and norm(t.left) == cparam and isinstance(t.comparators[0], ast.Constant) and t.comparators[0].value is None:
+                if isinstance(t.ops[0], (ast.Is, ast.Eq)):
+                    res = pol
+                elif isinstance(t.ops[0], (ast.IsNot, ast.NotEq)):
+                    res = not pol
+        return res
+
+    n_calls = 0
+    good = True
+    for pe in path_returns(ff.f.node):
+        for e in pe.effects:
+            for c in ast.walk(e):
+                if not (isinstance(c, ast.Call) and norm(c.func) == "self.add_block"):
+                    continue
+                n_calls += 1
+                carg = c.args[1] if len(c.args) > 1 else next((k.value for k in c.keywords if k.arg == "comment"), None)
+                if carg is None:
+                    rep.fail(rule, mod, fq, ad.stmt, "add_block is called without the comment: the previous comment is lost (default text is written)")
+                    return
+                for conds, leaf in split_ifexp(carg):
+                    if isinstance(leaf, ast.BoolOp):
+                        rep.fail(rule, mod, fq, ad.stmt, "comment chosen by truthiness (`or`): an explicit empty comment would be replaced by the old one")
+                        return
+                    nf = none_fact(flat_facts(pe.guards + conds))
+                    if nf is True and isinstance(leaf, ast.Attribute) and leaf.attr == "comment" and is_old_entry(leaf.value):
+                        continue
+                    if nf is False and norm(leaf) == cparam:
+                        continue
+                    good = False
+                    sel = [norm(t) for t, _ in pe.guards + conds if cparam in norm(t)]
+                    rep.fail(rule, mod, fq, ad.stmt, f"comment passed to add_block is `{norm(leaf)}` when `{sel[0] if sel else 'unconditionally'}`: an explicit (even empty) comment must be used as given and "
+                             "None must carry the replaced block's comment (expected `comment if comment is not None else old_entry.comment`)")
+                    return
+    if not n_calls:
+        raise AnalysisError(f"{fq}: no call to add_block")
     if good:
         rep.ok(rule, f"{fq}: comment = given comment if not None else the old entry's comment", nontrivial=True)
-    else:
-        # if/else statement form
-        ifs = [s for s in walk_no_nested(ff.f.node) if isinstance(s, ast.If) and norm(s.test).replace(" ", "") in ("commentisNone",)]
-        if ifs and any(isinstance(b, ast.Assign) and norm(b.targets[0]) == "comment" and any(norm(b.value) == f"{o}.comment" for o in olds) for b in ifs[0].body):
-            rep.ok(rule, f"{fq}: comment defaulted from the old entry when None", nontrivial=True)
+    # captured before removal: every local that reads the table and feeds the comment is bound before remove_block runs
+    if rm is not None:
+        carg = ad.call.args[1] if len(ad.call.args) > 1 else next((k.value for k in ad.call.keywords if k.arg == "comment"), None)
+        seen, work = set(), [carg] if carg is not None else []
+        late = None
+        while work:
+            e = work.pop()
+            for x in ast.walk(e):
+                if isinstance(x, ast.Name) and x.id in ff.defs and x.id not in seen:
+                    seen.add(x.id)
+                    for v, st in ff.defs[x.id]:
+                        work.append(v)
+                        if any(ct.is_entries(y) for y in ast.walk(v)):
+                            cn = cfg.node_of(st)
+                            if cn is None or not cfg.dominates(cn, rm.node):
+                                late = st
+            if any(ct.is_entries(y) for y in ast.walk(e)) and e is carg:
+                # the table is read inside the call expression itself, i.e. after the removal
+                if cfg.dominates(rm.node, ad.node):
+                    late = ad.stmt
+        if late is not None:
+            rep.fail(rule, mod, fq, late, "the old entry is looked up after the block was removed")
         else:
-            rep.fail(rule, mod, fq, ad.stmt, "the comment passed to add_block is not `comment if comment is not None else old_entry.comment`")
+            rep.ok(rule, f"{fq}: old entry captured before the removal", nontrivial=True)
 
 
 def dispatch_exhaustive(ct: Container, rep, rule="dispatch-exhaustive"):
